@@ -335,6 +335,8 @@ func (p *parser) checkAlias(mAlias ast.Alias, typeSensitive bool, start int, cac
 
 				if !ddptypes.Equal(typ, underlyingParamType) {
 					didMatch = false
+				} else if ddptypes.Equal(typ, ddptypes.VoidType{}) { // an argument without a type (unknown name, ...) binds no type parameter
+					didMatch = false
 				} else if ass, ok := cached_arg.Arg.(*ast.Indexing);                                // string-indexings may not be passed as char-reference
 				paramType.IsReference && ddptypes.Equal(underlyingParamType, ddptypes.BUCHSTABE) && // if the parameter is a char-reference
 					ok { // and the argument is a indexing
